@@ -86,6 +86,14 @@ def cases(rng, budget, widx, nworkers, tier):
         for j in range(len(moves)):
             if own and rng.random() < 0.3:
                 moves[j] = K.mul(rng.choice(own), rng.choice((1, -1, 2, F(1, 2), F(-1, 2), 3)))
+            elif own and rng.random() < 0.12:
+                # almost, but not exactly, along the object's own direction (a few hundredths of a radian off)
+                o_ = rng.choice(own)
+                e_ = [F(0), F(0), F(0)]
+                e_[rng.randrange(3)] = rng.choice((F(1, 4), F(-1, 4)))
+                cand = K.add(K.mul(o_, rng.choice((4, -4, 6, 8))), tuple(e_))
+                if K.cross(cand, o_) != (0, 0, 0) and max(abs(c) for c in cand) <= 40:
+                    moves[j] = cand
         lab = None
         if k in ("PG", "PH") and rng.random() < 0.08:
             # the moves end (or pass) where two vertices / faces of the object differ only in a coordinate -1 against -2,
